@@ -222,8 +222,11 @@ func safeRegister(m *larking.Mux, gsd *grpc.ServiceDesc, ss ...interface{}) (err
 	if len(ss) > 0 {
 		return m.VerifRegisterService(gsd, ss[0]) // the implementation object, as an application passes it
 	}
-	return m.VerifRegisterService(gsd, nil)
+	// (an application always passes its server value; the dynamic handlers do not look at it)
+	return m.VerifRegisterService(gsd, dynDefaultImpl)
 }
+
+var dynDefaultImpl = &struct{ name string }{"verif default implementation"}
 
 func isPanic(err error) bool {
 	_, ok := err.(panicError)
